@@ -27,8 +27,14 @@ THEOREMS = [
     ("Anytree.Props.C07.walk_absParts", "full"),
     ("Anytree.Props.C07.cmp_refl", "full"),
     ("Anytree.Props.C07.split_join_single", "full"),
+    ("Anytree.Props.C07b.split_join", "full"),
+    ("Anytree.Props.C07b.sepFree_of_head_notin", "full"),
+    ("Anytree.Props.C07b.sepFree_necessary", "full"),
+    ("Anytree.Props.C07b.get_absPath", "full"),
+    ("Anytree.Props.C07b.get_relPath", "full"),
 ]
-NOT_COVERED = ["get(m, absolute/relative path *string*) = n is proved on component lists (walk_absParts, walk_relParts) plus split_join_single for single-character separators; multi-character separators and the junction with get_eq_spec for whole path strings are exercised by the correspondence run only; ignorecase on non-ASCII names is outside the model"]
+MODULES = ["Anytree.Props.C07", "Anytree.Props.C07b"]
+NOT_COVERED = ["ignorecase on non-ASCII names is outside the model (str.upper() is CPython's Unicode case mapping; the mirror maps ASCII letters only); get_absPath/get_relPath carry the exact side condition SepFree (the separator occurs in name+separator only at the end: sepFree_necessary shows it cannot be dropped) and a non-empty root name"]
 PREDICATE_SPEC = True
 RULE = ("every ordered pair (m, n) of every shape up to N nodes (quick 5, thorough 6) with sibling-unique names: absolute path of n and "
         "the Walker-relative path from m, all four ignorecase x relax combinations; random paths of up to 4/6 components over names, "
